@@ -21,6 +21,41 @@ from tflsa import model  # noqa: E402
 from tflsa import report  # noqa: E402
 
 
+def _run_isolated(mod, prog, res):
+  """Runs the statements of the property's run() one by one.  A rule group
+  that cannot recognise its anchors (AnalysisError) or trips over an
+  unexpected construct no longer hides what the other groups find: the error
+  is recorded, the remaining groups still run, and the verdict is
+  VIOLATION (exit 1) if any group found one, analysis-broken (exit 2)
+  otherwise."""
+  import ast
+  import inspect
+  import textwrap
+  try:
+    src = textwrap.dedent(inspect.getsource(mod.run))
+    fdef = ast.parse(src).body[0]
+    if any(isinstance(n, ast.Return) for n in fdef.body):
+      raise ValueError('run() returns at top level')
+  except (OSError, TypeError, ValueError, SyntaxError, IndexError):
+    mod.run(prog, res)
+    return
+  ns = dict(mod.__dict__)
+  ns.update(prog=prog, res=res)
+  fname = getattr(mod, '__file__', '<run>')
+  for st in fdef.body:
+    code = compile(ast.Module(body=[st], type_ignores=[]), fname, 'exec')
+    try:
+      exec(code, ns)
+    except model.AnalysisError as e:
+      res.errors.append(str(e))
+    except Exception:  # an evaluator met a construct it does not model
+      res.errors.append('internal error in `%s`: %s' % (
+          ast.unparse(st)[:60], traceback.format_exc().strip().splitlines()[
+              -1]))
+      if os.environ.get('TFLSA_DEBUG'):
+        traceback.print_exc()
+
+
 def run_property(pid, tier, repo, replay_key=None, write_evidence=True,
                  quiet=False):
   try:
@@ -33,7 +68,7 @@ def run_property(pid, tier, repo, replay_key=None, write_evidence=True,
   res = report.Result(pid, tier, repo)
   res.explanation = mod.EXPLANATION
   res.assumptions = list(getattr(mod, 'ASSUMPTIONS', []))
-  mod.run(prog, res)
+  _run_isolated(mod, prog, res)
   if tier == 'thorough' and replay_key is None:
     # sensitivity audit: informational, never changes the verdict
     try:
